@@ -1105,6 +1105,7 @@ func main() {
 	mon.Floor("shared-storage:kind:1", 1000)
 	mon.Floor("cli:sites", 100)
 	mon.Floor("cli:seqs", 50)
+	mon.Floor("cli-multi:ok", 40)
 	mon.Main("C12", []mon.Sub{
 		{Name: "witness", Quick: len(witnesses) + nEmptyWitness, Thorough: len(witnesses) + nEmptyWitness, Run: runWitness},
 		{Name: "exh-sites", Quick: nExhSites, Thorough: nExhSites, Run: runExhSites},
@@ -1115,5 +1116,6 @@ func main() {
 		{Name: "shared", Quick: 20000, Thorough: 400000, Run: runShared},
 		{Name: "deep", Quick: 16, Thorough: 160, Run: runDeep},
 		{Name: "cli", Quick: 320, Thorough: 3000, Serial: true, Run: runCli},
+		{Name: "cli-multi", Quick: 90, Thorough: 900, Run: runCliMulti},
 	})
 }
